@@ -22,6 +22,11 @@ GEN_KEYS = [
 ]
 
 
+def sp_radius(v, d):
+    import math
+    return {1: v / 2, 2: math.sqrt(v / math.pi), 3: (3 * v / (4 * math.pi)) ** (1 / 3)}[d]
+
+
 def fbits(x: float) -> str:
     return str(struct.unpack("<Q", struct.pack("<d", float(x)))[0])
 
@@ -198,6 +203,18 @@ def search(ck: Check, n: int):
             dr.volume = x
             if not rel_close(float(dr.volume), x, RTOL_ROUNDTRIP):
                 ck.fail(f"droplet.volume setter/getter dim={d}: set {x!r} read {dr.volume!r}", {"check": "droplet_volume_setter_getter", "dim": d}, {"kind": "setter", "dim": d, "x": x})
+            # (the setter does not depend on the droplet's previous size: a vanished droplet - radius exactly 0 - regrows, python and numpy scalars alike)
+            for start, val in ((0.0, x), (0.0, np.float64(x)), (x, x * 0.37), (1e-200, x)):
+                dz = SphericalDroplet(np.arange(d, dtype=float), start)
+                try:
+                    dz.volume = val
+                    got_v, got_r = float(dz.volume), float(dz.radius)
+                except Exception as e:  # noqa: BLE001
+                    got_v = got_r = f"raised {type(e).__name__}"
+                ck.count("volume_setter_from_other_sizes")
+                if isinstance(got_v, str) or not rel_close(got_v, float(val), RTOL_ROUNDTRIP) or not rel_close(got_r, float(sp_radius(float(val), d)), RTOL_ROUNDTRIP):
+                    ck.fail(f"droplet.volume setter dim={d}: a droplet of radius {start!r} given the volume {val!r} reads volume {got_v!r}, radius {got_r!r}",
+                            {"check": "droplet_volume_setter_getter", "dim": d, "from_zero": start == 0.0}, {"kind": "setter-from", "dim": d, "start": start, "x": float(val)})
             dr = SphericalDroplet(np.arange(d, dtype=float), x)
             if not rel_close(dr.interface_curvature, 1 / x, 1e-15):
                 ck.fail(f"curvature of sphere r={x!r} is {dr.interface_curvature!r}", {"check": "droplet_curvature", "dim": d}, {"kind": "curv", "dim": d, "x": x})
